@@ -4,7 +4,7 @@ from harness.props._common import run_eval, replay_eval
 from harness import monitors
 
 PROPS_FILE = "P_C04"
-COQ_TARGETS = ["CaseLib", "CaseLibMcx", "LdmcsuModel", "QdmcuModel", "LdmcuInst"]
+COQ_TARGETS = ["CaseLib", "CaseLibMcx", "LdmcsuModel", "QdmcuModel", "LdmcuInst", "AbcModel"]
 RULE = ("contract monitors: every call of Qdmcu.custom_sqrtm (V unitary, V V = U: premises of C04_barenco_step) and of "
         "Ldmcsu._compute_gate_a (A unitary, (A^dagger X A X)^2 = U: conclusion of C04_gate_a_fourth_root in matrix form) made while "
         "building gates for boundary and random SU(2)/U(2) matrices and 2..6/9 controls is checked numerically at 1e-9; gate-list "
@@ -15,12 +15,14 @@ RULE = ("contract monitors: every call of Qdmcu.custom_sqrtm (V unitary, V V = U
         "V^dagger gates named by the custom_sqrtm iterate their base matrix equals, each checked to be the ideal controlled matrix; the "
         "premises of C04_qdmcu - V_(l+1)^2 = V_l, unitarity - are checked on the iterates); the flattened definition of Ldmcu(U, T, ctrl_state), "
         "T = 1..9/14, is compared inside Coq with LdmcuInst.ldmcu (crx angles read exactly as +-pi/2^e, controlled roots named by the integer "
-        "power of the deepest root W they equal; premises W Wi = 1, W^(2^(T-1)) = U checked numerically); direct "
+        "power of the deepest root W they equal; premises W Wi = 1, W^(2^(T-1)) = U checked numerically); the flattened definition of "
+        "LdMcSpecialUnitary(U, k, ctrl_state), k = 1..12/20, is compared inside Coq with AbcModel.abc (one-qubit gates named by the matrices "
+        "get_abc_operators returned, logged in call order; premises A X B X C = U, A B C = 1 on every level checked numerically); direct "
         "evaluation (harness/props/c04_eval.py): operator / random-state evolution vs the ideal controlled-U for every gate class, "
         "control pattern and boundary matrix. distinct = distinct (class, matrix, controls, pattern); non-trivial = k >= 2")
 ASSUMPTIONS = ["Qiskit's UnitaryGate(...).control(...) is the ideal controlled gate (validated numerically in the direct evaluation)",
                "the 2x2 identities that are premises of C04_qdmcu / C04_ldmcsu_* (square roots, unitarity) are checked numerically on the matrices the code computes",
-               "Ldmcsu's eigenbasis branch (complex diagonals), LdMcSpecialUnitary's ABC decomposition, MCU's truncated ladder and "
+               "Ldmcsu's eigenbasis branch (complex diagonals), MCU's truncated ladder and "
                "MultiTargetMCSU2 are evaluated, not proved"]
 TRUSTED = ["harness/monitors.py"]
 X = np.array([[0, 1], [1, 0]], dtype=complex)
@@ -359,11 +361,95 @@ def ldmcu_correspondence(ctx):
     run_bool_cases(ctx, "c04_ldmcu", DHEADER, lines, cases, on_fail, shard=12)
 
 
+AHEADER = ("From Coq Require Import List Bool Arith.\nFrom QV Require Import McxModel CaseLib CaseLibMcx AbcModel.\nImport ListNotations.\n"
+           "Definition ag_eqb (g h : ag) : bool := match g, h with AS a, AS b => sgate_eqb a b | AU i t, AU j u => Nat.eqb i j && Nat.eqb t u | _, _ => false end.\n"
+           "(* indices naming numerically equal 2x2 matrices are identified: table computed by the harness *)\n"
+           "Definition canoni (tb : list (nat * nat)) (i : nat) : nat := match find (fun e => Nat.eqb (fst e) i) tb with Some e => snd e | None => i end.\n"
+           "Definition cag tb (g : ag) : ag := match g with AU i t => AU (canoni tb i) t | _ => g end.\n")
+
+
+def abc_correspondence(ctx):
+    """LdMcSpecialUnitary(U, k, ctrl_state), U in SU(2): the flattened definition is compared inside Coq with AbcModel.abc k pattern;
+    the one-qubit gates are named by the matrices returned by get_abc_operators (logged in call order), and the premises of
+    C04_ldmc_special (A X B X C = U, A B C = 1, and the same for the nested decompositions of A, B, C) are checked numerically."""
+    from qclib.gates.ldmcsu import LdMcSpecialUnitary
+    from harness.flatten import flatten, coq_list, coq_bool
+    from harness.coqcases import run_bool_cases
+    from harness.props.c05 import pat_of, sgates_to_coq
+    kmax = 12 if ctx.quick else 20
+    cases, lines = [], []
+    log = []
+
+    def abc_factory(orig):
+        def wrapped(beta, gamma, delta):
+            r = orig(beta, gamma, delta)
+            log.append([np.asarray(g.to_matrix()) for g in r])
+            return r
+        return wrapped
+
+    def prem(a, b, c, w):
+        return max(np.abs(a @ X @ b @ X @ c - w).max(), np.abs(a @ b @ c - np.eye(2)).max())
+    for k in range(1, kmax + 1):
+        for fam, U in su2_family(ctx.rng):
+            if k > 7 and fam not in ("haar_su2", "identity", "iX", "rz", "ry"):
+                continue
+            cs = None if ctx.rng.random() < 0.3 else "".join("1" if ctx.rng.random() < 0.5 else "0" for _ in range(k))
+            log.clear()
+            with monitors.patched(LdMcSpecialUnitary, "get_abc_operators", lambda o: staticmethod(abc_factory(o))):
+                g = LdMcSpecialUnitary(U, k, ctrl_state=cs)
+                fl, _ = flatten(g.definition)
+            case = {"class": "LdMcSpecialUnitary", "k": k, "ctrl_state": cs, "mat_family": fam, "matrix": [[str(z) for z in row] for row in U]}
+            cases.append(case)
+            mats = {}
+            if len(log) >= 1:
+                mats[9], mats[10], mats[11] = log[0]
+            if len(log) == 4:
+                for j in range(3):
+                    mats[3 * j], mats[3 * j + 1], mats[3 * j + 2] = log[1 + j]
+            ctx.monitor("abc_theorem_premises")
+            ok_shape = (len(log) == 1 and k < 3) or (len(log) == 4 and k >= 3)
+            if not ok_shape:
+                ctx.mismatch("C04 correspondence: LdMcSpecialUnitary called get_abc_operators an unexpected number of times", dict(case, calls=len(log)))
+            else:
+                A, B, C = mats[9], mats[10], mats[11]
+                errs = [prem(A, B, C, U)]
+                if k >= 3:
+                    errs += [prem(mats[0], mats[1], mats[2], A), prem(mats[3], mats[4], mats[5], B), prem(mats[6], mats[7], mats[8], C)]
+                if max(errs) > 1e-9:
+                    ctx.mismatch(f"C04 contract: the ABC operators do not satisfy A X B X C = U, A B C = 1 (premises of C04_ldmc_special), off by {max(errs):.1e}", case)
+            idxs = sorted(mats)
+            rep = {}
+            for n_i, a in enumerate(idxs):
+                rep[a] = next(b for b in idxs[:n_i + 1] if np.abs(mats[a] - mats[b]).max() < 1e-13)
+            table = coq_list([f"({a}, {rep[a]})" for a in idxs])
+            items = []
+            for name, qs, op in fl:
+                if name == "unitary" and len(qs) == 1:
+                    Mx = np.asarray(op.to_matrix())
+                    best = min(idxs, key=lambda a: np.abs(Mx - mats[a]).max()) if idxs else None
+                    if best is None or np.abs(Mx - mats[best]).max() > 1e-12:
+                        items.append(f"AU 99999 {qs[0]}")
+                    else:
+                        items.append(f"AU {rep[best]} {qs[0]}")
+                else:
+                    items.append("AS (" + sgates_to_coq([(name, qs, op)])[1:-1] + ")")
+            ctx.max_struct_qubits = max(ctx.max_struct_qubits, k + 1)
+            ctx.count("corr:ldmc_special", key=("abc", k, cs, fam, U.tobytes()), nontrivial=k >= 2,
+                      sample={"class": "LdMcSpecialUnitary", "k": k, "ctrl_state": cs, "mat_family": fam, "gates": len(items)} if k == 6 else None)
+            model = f"(map (cag {table}) (abc {k} {coq_list([coq_bool(b) for b in pat_of(cs, k)])}))"
+            lines.append(f"(list_eqb ag_eqb {model} {coq_list(items)})")
+
+    def on_fail(c):
+        ctx.mismatch("C04 correspondence: flattened LdMcSpecialUnitary definition differs from the Coq model AbcModel.abc", c)
+    run_bool_cases(ctx, "c04_abc", AHEADER, lines, cases, on_fail, shard=12)
+
+
 def run(ctx):
     monitor_run(ctx)
     ldmcsu_correspondence(ctx)
     qdmcu_correspondence(ctx)
     ldmcu_correspondence(ctx)
+    abc_correspondence(ctx)
     run_eval(ctx, "C04")
 
 
@@ -376,7 +462,7 @@ def replay(ctx, case):
 
 
 MANIFEST = dict(
-    text="Proof (PARTIAL): Ldmcu end to end for every T >= 1 controls, every control pattern and every invertible W (C04_ldmcu): the gate list in the order the code emits it - four sweeps of controlled RX(+-pi/2^e) and controlled roots of U over the pairs (control, target) sorted stably by control + target - applies W^(2^(T-1)) = U to the target exactly on the matching basis states and restores every control with its phase; proof = trace equivalence of the sorted sweeps with their grouped form (Resort.resort), merging of the gates of one target in a one-parameter group, the cascade 'flip qubit j iff all lower qubits are 1' by induction (LdmcuCore.Sl_sem, Sl'_sem) and the weight identity C04_ldmcu_weights; Qdmcu end to end for every number of controls, every control pattern and every 2x2 matrix family with V_(l+1)^2 = V_l, V_l V_l^dagger = 1: the gate list of QdmcuModel.qdmcu (controlled V, action-only LinearMcx on the lower controls with the target as dirty ancilla, controlled V^dagger, the inverse LinearMcx, recursion on the remaining controls with the next square root) applies U to the target exactly on the basis states matching the pattern and the identity elsewhere (C04_qdmcu; it rests on the exact LinearMcx for every k >= 1 and every pattern, C04_linear_mcx_exact, on the factorisation exact = controls-only circuit after action-only, and on a polarity version of Barenco Lemma 7.5); the spectral square root squares to the matrix (C04_spectral_sqrt); the recursion step of Qdmcu (Barenco Lemma 7.5) for any placement and any 'rest' predicate (C04_barenco_step), and the fourth-root identity of Ldmcsu._compute_gate_a over the reals (C04_gate_a_fourth_root); Ldmcsu end to end for every k >= 2, every control pattern and every SU(2) matrix with a real main or secondary diagonal: the gate list of LdmcsuModel.ldmcsu (two dirty V-chains, their inverses, A / A^dagger, optional H conjugation) applies U to the target exactly on the basis states matching the pattern and the identity elsewhere (C04_ldmcsu_plain, C04_ldmcsu_hconj, built on C05's placed V-chain theorems). Tie: the flattened Ldmcu, Ldmcsu and Qdmcu definitions are compared with the models' gate lists inside Coq; every custom_sqrtm and _compute_gate_a call made while building gates for boundary and random SU(2) matrices is checked against the theorem's premises/conclusion in matrix form. All gate classes (Ldmcu, Ldmcsu, LdMcSpecialUnitary, Qdmcu, Mcg, MCU, MultiTargetMCSU2), patterns and boundary matrices are evaluated against the ideal controlled operator.",
-    note='Modelled, not verified: Qiskit .control(), UnitaryGate; scipy schur inside custom_sqrtm (its output is checked, not modelled) and inside Ldmcu._gate_u (its roots are checked to be integer powers of the deepest root); Ldmcsu eigenbasis branch, ABC decomposition, MCU bound, multi-target variant are evaluated only.',
+    text="Proof (PARTIAL): LdMcSpecialUnitary end to end for every k >= 1 controls and every pattern given the ABC identities on the matrices (C04_ldmc_special: controlled C, LinearMcx onto the target borrowing the last control - action_only from six controls on -, controlled B, the inverse LinearMcx, controlled A, each controlled gate a nested a ; cx ; b ; cx ; c block); Ldmcu end to end for every T >= 1 controls, every control pattern and every invertible W (C04_ldmcu): the gate list in the order the code emits it - four sweeps of controlled RX(+-pi/2^e) and controlled roots of U over the pairs (control, target) sorted stably by control + target - applies W^(2^(T-1)) = U to the target exactly on the matching basis states and restores every control with its phase; proof = trace equivalence of the sorted sweeps with their grouped form (Resort.resort), merging of the gates of one target in a one-parameter group, the cascade 'flip qubit j iff all lower qubits are 1' by induction (LdmcuCore.Sl_sem, Sl'_sem) and the weight identity C04_ldmcu_weights; Qdmcu end to end for every number of controls, every control pattern and every 2x2 matrix family with V_(l+1)^2 = V_l, V_l V_l^dagger = 1: the gate list of QdmcuModel.qdmcu (controlled V, action-only LinearMcx on the lower controls with the target as dirty ancilla, controlled V^dagger, the inverse LinearMcx, recursion on the remaining controls with the next square root) applies U to the target exactly on the basis states matching the pattern and the identity elsewhere (C04_qdmcu; it rests on the exact LinearMcx for every k >= 1 and every pattern, C04_linear_mcx_exact, on the factorisation exact = controls-only circuit after action-only, and on a polarity version of Barenco Lemma 7.5); the spectral square root squares to the matrix (C04_spectral_sqrt); the recursion step of Qdmcu (Barenco Lemma 7.5) for any placement and any 'rest' predicate (C04_barenco_step), and the fourth-root identity of Ldmcsu._compute_gate_a over the reals (C04_gate_a_fourth_root); Ldmcsu end to end for every k >= 2, every control pattern and every SU(2) matrix with a real main or secondary diagonal: the gate list of LdmcsuModel.ldmcsu (two dirty V-chains, their inverses, A / A^dagger, optional H conjugation) applies U to the target exactly on the basis states matching the pattern and the identity elsewhere (C04_ldmcsu_plain, C04_ldmcsu_hconj, built on C05's placed V-chain theorems). Tie: the flattened Ldmcu, Ldmcsu, LdMcSpecialUnitary and Qdmcu definitions are compared with the models' gate lists inside Coq; every custom_sqrtm and _compute_gate_a call made while building gates for boundary and random SU(2) matrices is checked against the theorem's premises/conclusion in matrix form. All gate classes (Ldmcu, Ldmcsu, LdMcSpecialUnitary, Qdmcu, Mcg, MCU, MultiTargetMCSU2), patterns and boundary matrices are evaluated against the ideal controlled operator.",
+    note='Modelled, not verified: Qiskit .control(), UnitaryGate; scipy schur inside custom_sqrtm (its output is checked, not modelled) and inside Ldmcu._gate_u (its roots are checked to be integer powers of the deepest root); Ldmcsu eigenbasis branch, the ZYZ angles behind the ABC operators (their identities are checked), MCU bound, multi-target variant are evaluated only.',
     technique='Coq proof (operator algebra on monomial/permuted states; trace equivalence of commuting gate orders; one-parameter groups; real sqrt algebra) + runtime contract monitors + operator / random-state evaluation',
     design_ref='DESIGN.md section 4, C04')
